@@ -63,6 +63,14 @@ def ev_term(t, val, calls=None):
             return b[i]
         except Exception:
             raise Unknown(tstr(t))
+    if h == "slice":
+        b = ev_term(t[1], val, calls)
+        lo = ev_term(t[2], val, calls) if t[2] is not None else None
+        hi = ev_term(t[3], val, calls) if t[3] is not None else None
+        try:
+            return b[lo:hi]
+        except Exception:
+            raise Unknown(tstr(t))
     if h == "call" and calls is not None:
         r = calls(t, val)
         if r is not NotImplemented:
@@ -198,7 +206,7 @@ def _check_terminator_helpers(ctx):
     T = C(16)
     f = ctx.P.func(NIB + "is_nibbles_terminated")
     n = ("p", f.params[0])
-    rets = {st.ret for p, st in pq.states(ctx, f) if p.exit[0] == "return"}
+    rets = pq.rets(ctx, f)
     want = ("bool", "and", (n, ("cmp", "==", ("sub", n, C(-1)), T)))
     if rets == {want}:
         ctx.ok("terminated-test:is_nibbles_terminated", f.loc(), "non-empty and last nibble == terminator")
@@ -264,6 +272,9 @@ def exc6(ctx, pid):
             return self.n
 
         def __getitem__(self, i):
+            if isinstance(i, slice) and i.step in (None, 1):
+                lo, hi, _ = i.indices(self.n)
+                return FakePart(self, lo, max(lo, hi))
             if i == 0 and self.n > 0:
                 return self.t
             raise Unknown("node[%r]" % (i,))
@@ -279,6 +290,54 @@ def exc6(ctx, pid):
             return not self.__eq__(o)
 
         __hash__ = None
+
+    class FakePart:
+        """node[lo:hi] of an abstract node: only its extent is known"""
+
+        def __init__(self, base, lo, hi):
+            self.base, self.lo, self.hi = base, lo, hi
+
+        def __len__(self):
+            return self.hi - self.lo
+
+        def __getitem__(self, i):
+            if isinstance(i, slice) and i.step in (None, 1):
+                lo, hi, _ = i.indices(len(self))
+                return FakePart(self.base, self.lo + lo, self.lo + max(lo, hi))
+            if i == 0 and self.lo == 0 and self.hi > 0:
+                return self.base.t
+            raise Unknown("node[%d:%d][%r]" % (self.lo, self.hi, i))
+
+        def __eq__(self, o):
+            if o == b"":
+                return len(self) == 0
+            if o is None:
+                return False
+            raise Unknown("node part == %r" % (o,))
+
+        def __ne__(self, o):
+            return not self.__eq__(o)
+
+        __hash__ = None
+
+    def extent(t, fake):
+        """a term that is a (nested) slice of the node -> ("part", lo, hi) for this node length"""
+        try:
+            v = ev_term(t, {node: fake})
+        except Exception:
+            return t
+        if isinstance(v, FakePart):
+            return ("part", v.lo, v.hi)
+        if isinstance(v, FakeNode):
+            return ("part", 0, v.n)
+        return t
+
+    def extents(t, fake):
+        if isinstance(t, tuple) and t and t[0] == "call" and len(t) > 2 and isinstance(t[2], tuple):
+            return (t[0], t[1], tuple(extents(a, fake) for a in t[2])) + tuple(t[3:])
+        if isinstance(t, tuple) and t and t[0] in ("slice", "p"):
+            return extent(t, fake)
+        return t
 
     grid_t = [KV, BR, LF, 3, 4, 255]
     grid_n = [1, 2, 32, 33, 34, 64, 65, 66, 100]
@@ -301,7 +360,8 @@ def exc6(ctx, pid):
                 elif p.exit[0] == "return":
                     r = st.ret
                     if r[0] == "tuple" and len(r[1]) == 3 and is_c(r[1][0]):
-                        outs.add(("ret", r[1][0][1], r[1][1], r[1][2]))
+                        fk = FakeNode(t, n)
+                        outs.add(("ret", r[1][0][1], extents(r[1][1], fk), extents(r[1][2], fk)))
                     else:
                         outs.add(("ret?", tstr(r)[:40]))
                 else:
@@ -347,6 +407,9 @@ def exc6(ctx, pid):
     diffs = []
     for (t, n), outs in table.items():
         w = expect(t, n)
+        if isinstance(w, tuple) and isinstance(t, int):
+            fk = FakeNode(t, n)
+            w = ("ret", w[1], extents(w[2], fk), extents(w[3], fk))
         if outs != {w}:
             diffs.append("%s, length %d: %s, expected %s" % ("type byte %d" % t if isinstance(t, int) else "blank input %s" % t, n, sorted(map(_o, outs)), _o(w)))
     # None / empty
@@ -374,7 +437,7 @@ def exc6(ctx, pid):
                         ("encode_branch_node", lambda g: ("bin", "+", ("bin", "+", C(bytes([BR])), ("p", g.params[0])), ("p", g.params[1]))),
                         ("encode_leaf_node", lambda g: ("bin", "+", C(bytes([LF])), ("p", g.params[0])))):
         g = ctx.P.func(NODES + name)
-        rets = {st.ret for p, st in pq.states(ctx, g) if p.exit[0] == "return"}
+        rets = pq.rets(ctx, g)
         cst = "writer-layout:%s" % name
         if rets == {wantf(g)}:
             ctx.ok(cst, g.loc(), "layout is type byte + fields in the order the reader slices them", rule="SIB7")
@@ -403,12 +466,53 @@ def _o(x):
 
 
 # ---------------------------------------------------------------------------
+class FirstByte:
+    """first byte of a hex-prefix encoded key: the flag nibble (2 * terminated + odd) is known, the rest is not"""
+
+    def __init__(self, flag):
+        self.flag = flag
+
+    def __rshift__(self, k):
+        if k == 4:
+            return self.flag
+        raise Unknown("key[0] >> %r" % (k,))
+
+    def __and__(self, m):
+        if isinstance(m, int) and m & 0x0F == 0:
+            return (self.flag << 4) & m
+        raise Unknown("key[0] & %r" % (m,))
+
+    def __floordiv__(self, k):
+        if k == 16:
+            return self.flag
+        raise Unknown("key[0] // %r" % (k,))
+
+    __hash__ = None
+
+
+class KeyShape:
+    def __init__(self, terminated, odd):
+        self.terminated, self.odd = terminated, odd
+
+    def __getitem__(self, i):
+        if i == 0:
+            return FirstByte(2 * int(self.terminated) + int(self.odd))
+        raise Unknown("key[%r]" % (i,))
+
+    __hash__ = None
+
+
 class Shape:
-    def __init__(self, name, blank, length, terminated):
-        self.name, self.blank, self.length, self.terminated = name, blank, length, terminated
+    def __init__(self, name, blank, length, terminated, odd=False):
+        self.name, self.blank, self.length, self.terminated, self.odd = name, blank, length, terminated, odd
 
     def __len__(self):
         return self.length
+
+    def __getitem__(self, i):
+        if i == 0 and self.length == 2 and self.terminated is not None:
+            return KeyShape(self.terminated, self.odd)
+        raise Unknown("node[%r]" % (i,))
 
     def __eq__(self, o):
         if o == b"":
@@ -422,6 +526,7 @@ class Shape:
 
 
 SHAPES = [Shape("blank", True, 0, None), Shape("kv-terminated", False, 2, True), Shape("kv-unterminated", False, 2, False),
+          Shape("kv-terminated-odd", False, 2, True, True), Shape("kv-unterminated-odd", False, 2, False, True),
           Shape("branch", False, 17, None), Shape("other", False, 3, None)]
 
 
@@ -432,6 +537,14 @@ def sib8(ctx, pid):
     NT = {n: ctx.P.const(cm, "NODE_TYPE_" + n) for n in ("BLANK", "LEAF", "EXTENSION", "BRANCH")}
     funcs = {n: ctx.P.func(NODES + n) for n in ("get_node_type", "is_blank_node", "is_leaf_node", "is_extension_node", "is_branch_node")}
     memo = {}
+    depth = [0]
+
+    def _hashable(v):
+        try:
+            hash(v)
+            return v
+        except TypeError:
+            raise Unknown("callee returns an abstract value")
 
     def classify(fname, shape):
         key = (fname, shape.name)
@@ -455,6 +568,30 @@ def sib8(ctx, pid):
                     if isinstance(r, tuple) and r[0] == "ret":
                         return r[1]
                     raise Unknown("callee %s" % n2)
+            if k == NIB + "is_nibbles_terminated" or k == NIB + "decode_nibbles":
+                return NotImplemented
+            if k == "ext:bool" and len(t[2]) == 1:
+                return bool(ev_term(t[2][0], val, calls))
+            # any other function of the package: evaluated on the values of its arguments (helpers that a
+            # refactoring put between the classifier and the key)
+            g = ctx.P.funcs.get(k)
+            if g is not None and not g.module.is_tools and g.cls is None and len(t[2]) == len(g.params) and not (len(t) > 3 and t[3]) and depth[0] < 4:
+                vals2 = {("p", pn): ev_term(a, val, calls) for pn, a in zip(g.params, t[2])}
+                depth[0] += 1
+                try:
+                    res = set()
+                    for p2, st2 in run_cases(ctx, g, vals2, calls):
+                        if p2.exit[0] == "return":
+                            res.add(("v", _hashable(ev_term(st2.ret, vals2, calls))))
+                        elif p2.exit[0] == "raise":
+                            raise Unknown("callee %s raises" % g.name)
+                        else:
+                            res.add(("v", None))
+                finally:
+                    depth[0] -= 1
+                if len(res) == 1:
+                    return next(iter(res))[1]
+                raise Unknown("callee %s: %d outcomes" % (g.name, len(res)))
             return NotImplemented
         outs = set()
         try:
@@ -487,7 +624,7 @@ def sib8(ctx, pid):
         unk = []
         for sh in SHAPES:
             got = classify(fname, sh)
-            w = want[fname][sh.name]
+            w = want[fname][sh.name[:-4] if sh.name.endswith("-odd") else sh.name]
             if got[0] in ("unknown", "multi", "ret?"):
                 unk.append("%s: %s" % (sh.name, got))
                 continue
@@ -520,7 +657,7 @@ def sib8(ctx, pid):
     }
     for name, wf in duals.items():
         g = ctx.P.func(NODES + name)
-        rets = {st.ret for p, st in pq.states(ctx, g) if p.exit[0] == "return"}
+        rets = pq.rets(ctx, g)
         c = "key-dual:%s" % name
         if rets == {wf(g)}:
             ctx.ok(c, g.loc(), "is %s" % tstr(wf(g)))
@@ -777,6 +914,43 @@ def sib7b(ctx, pid):
         want2 = ("slice", base, eng.mk_bin("+", C(4), ("bin", "%", ("bin", "-", C(4), idx), C(4))), None)
         checked = any(rel_norm(tt, pol) == ("==", ("slice", base, C(0), C(2)), C(p00)) or rel_norm(tt, pol) == ("==", ("slice", base, None, C(2)), C(p00)) for tt, pol, _ in st.log + st.alog)
         rrows[first1] = (ret in (want, want2), checked, tstr(ret)[:80])
+    # reader refusals: the writer takes bit strings of any length, so a refusal of the reader has to be about the
+    # header / padding region; a bound on the length of the key path refuses what the writer produces
+    unsure_ref = []
+    w_bounds = False
+    for p, st in pq.states(ctx, w):
+        for tt, pol, _ in st.log:
+            rr = rel_norm(tt, pol)
+            if rr and rr[0] in (">", ">=") and any(x[0] == "len" for x in (rr[1], rr[2])) and any(x[0] == "c" and isinstance(x[1], int) and x[1] >= 8 for x in (rr[1], rr[2])) \
+                    and p.exit[0] == "raise":
+                w_bounds = True
+
+    def mentions(t, what):
+        if t == what:
+            return True
+        return isinstance(t, tuple) and any(mentions(x, what) for x in t if isinstance(x, tuple))
+    for p, st in pq.states(ctx, r):
+        if p.exit[0] != "raise" or pq.local_raise(p) is None or p.exit[1].split(".")[-1] == "AssertionError":
+            continue
+        conds = [rel_norm(tt, pol) for tt, pol, _ in st.log]
+        last = conds[-1] if conds else None
+        if last is None:
+            unsure_ref.append("a refusal whose condition is not a comparison")
+            continue
+        op, a_, b_ = last
+        if op in (">", ">=") and a_[0] == "len" and mentions(a_, pth) and b_[0] == "c" and isinstance(b_[1], int) and b_[1] >= 8:
+            if not w_bounds:
+                probs.append("reader refuses a key path of more than %d bits (line %d); the writer encodes bit strings of any length, so encodings it produces no longer decode"
+                             % (b_[1], p.exit[2].lineno if len(p.exit) > 2 and hasattr(p.exit[2], "lineno") else r.node.lineno))
+            continue
+        if op == "==" and a_ == ("len", pth) and b_ == C(0):
+            continue  # no header at all: never a writer output (the header is a non-empty constant)
+        if op == "!=" and a_[0] == "slice" and a_[1] in (pth, ("slice", pth, C(4), None)) and a_[2] in (None, C(0)) and b_[0] == "c" and isinstance(b_[1], bytes) \
+                and (p10.startswith(b_[1]) or p00.startswith(b_[1]) or b_[1] == p00):
+            continue  # the flag nibble / the 00 marker spelled as a refusal
+        unsure_ref.append("refusal under `%s %s %s`" % (tstr(a_)[:40], op, tstr(b_)[:30]))
+    if unsure_ref and not probs:
+        ctx.unsure("keypath-refusals:decode_to_bin_keypath", r.loc(), "the reader has a refusal the rule cannot show to be unreachable on the writer's output: %s" % unsure_ref[0])
     for k in (True, False):
         v = rrows.get(k)
         if v is None:
